@@ -2,7 +2,7 @@
     Statements only; proofs are in Proofs/. *)
 From Coq Require Import List NArith ZArith.
 From Cicada Require Import Base.Chars Base.Tag Model.Expand Model.ExpandRef
-  Proofs.ExpandBasics Proofs.SubstProofs Proofs.SubstWitness.
+  Proofs.ExpandBasics Proofs.SubstProofs Proofs.SubstWitness Model.SubstVariant Proofs.SubstVariantProofs.
 Import ListNotations.
 Local Open Scope N_scope.
 
@@ -68,6 +68,24 @@ Theorem C11_partial : forall W head cmd tail out f,
   = Ok (Some (head ++ strip_nl out ++ tail), [cmd]).
 Proof. exact splice_partial. Qed.
 
+(** About the PROPOSED repairs notes/C11-fix-2.patch (closure replacer: the output is text) and
+    notes/C11-fix-3.patch (inside double quotes only trailing newlines are removed); Model/SubstVariant.v
+    transcribes the patched loop.  The output may then contain dollars ($1, ${x}, $name stay as they are);
+    the only output still excluded is one that brings a dollar directly followed by an open paren into the
+    word, because the loop would run it (class output_rescanned). *)
+Theorem C11_variant : forall W tg head cmd tail f,
+  ~ In 36 head -> ~ In 10 tail -> ~ In 41 tail -> cmd <> [] -> ~ In 41 cmd -> ~ In 10 cmd ->
+  (~ In 61 (head ++ [36; 40] ++ cmd ++ [41] ++ tail) \/ ~ In 39 (head ++ [36; 40] ++ cmd ++ [41] ++ tail)) ->
+  has_dollar_paren (head ++ trim_out tg (oracle_out W cmd) ++ tail) = false ->
+  dollar_loop_v (S (S f)) W tg (head ++ [36; 40] ++ cmd ++ [41] ++ tail) []
+  = Ok (Some (head ++ trim_out tg (oracle_out W cmd) ++ tail), [cmd]).
+Proof. exact dollar_loop_v_splices. Qed.
+Example C11_variant_examples :
+  dollar_loop_v 2 W_tpl_v TNone [36; 40; 120; 41] [] = Ok (Some [97; 36; 49; 98], [[120]]) /\
+  dollar_loop_v 2 W_ws_v TDq [112; 36; 40; 120; 41; 113] [] = Ok (Some [112; 32; 118; 32; 113], [[120]]) /\
+  dollar_loop_v 2 W_ws_v TNone [112; 36; 40; 120; 41; 113] [] = Ok (Some [112; 118; 113], [[120]]).
+Proof. repeat split; [exact variant_template_kept | exact variant_dq_keeps_blanks | exact variant_unquoted_trims]. Qed.
+
 Check C11_refuted : ~ C11_full.
 Check C11_partial : forall W head cmd tail out f,
   word_ok head cmd tail -> run_capture W cmd = Some out ->
@@ -90,3 +108,4 @@ Print Assumptions C11_backquote.
 Print Assumptions C11_refuted_template.
 Print Assumptions C11_refuted_whitespace.
 Print Assumptions C11_partial.
+Print Assumptions C11_variant.
